@@ -237,6 +237,19 @@ class Engine:
                 out.append(pr)
         return out
 
+    def _ghosts_of(self, c, specs):
+        """names of the ghost inputs of contract c (not handed to the
+        function under contract): a property of the contract, not of the
+        engine's current position - triage runs after other contracts"""
+        g = getattr(c, 'ghost', None) or {}
+        if callable(g):
+            import inspect
+            try:
+                g = g(**{k: 1 for k in inspect.signature(g).parameters})
+            except Exception:
+                return set(getattr(self, '_ghosts', ()))
+        return set(k for k in g if k in specs)
+
     def arg_specs(self, c, cfg):
         a = c.args if isinstance(c, Contract) else c.forall
         a = dict(a(**cfg) if callable(a) else a)
@@ -782,7 +795,7 @@ class Engine:
         isc = isinstance(c, Contract)
         job = self._job_for(c, specs, asg, clauses, post_state)
         if warm and isc:
-            gh = set(getattr(self, '_ghosts', ()))
+            gh = self._ghosts_of(c, specs)
             job['warm'] = {n: sp.desc('w$' + n, asg) for n, sp in specs.items()
                            if n != 'self' and n not in gh and not getattr(sp, 'computed', False)}
         return job
@@ -792,7 +805,7 @@ class Engine:
         return {'target': c.target if isc else None, 'lemma': not isc,
                 'order': list(specs),
                 'args': {n: sp.desc(n, asg) for n, sp in specs.items()},
-                'ghosts': sorted(getattr(self, '_ghosts', ())) if isc else [],
+                'ghosts': sorted(self._ghosts_of(c, specs)) if isc else [],
                 'requires': list(c.requires if isc else c.given),
                 'clauses': list(clauses), 'post_state': post_state}
 
